@@ -342,13 +342,15 @@ Proof.
   - rewrite env_go_cons. eapply vt_bind; [apply vs_imps_get|]. intros o Ho. destruct o as [i|].
     + destruct (is_evaluating i).
       * eapply vt_bind; [apply vs_err|]. intros _ _. apply IH; assumption.
-      * assert (Hval : csorted (match is_value i with Some v => v | None => [] end) = true).
-        { destruct (is_value i) as [v|] eqn:Ev; [apply (Ho i v eq_refl Ev)|reflexivity]. }
+      * destruct (is_value i) as [v|] eqn:Ev; [|apply IH; assumption].
+        assert (Hval : csorted v = true) by (apply (Ho i v eq_refl Ev)).
         apply IH; [destruct merge; [apply csorted_app; assumption|exact Hb]|apply my_ok_ainsert; assumption].
     + eapply vt_bind; [apply vs_call|]. intros failed _. eapply vt_bind; [apply vs_emit|]. intros _ _.
       destruct (load_result W failed n) as [| |d'].
-      * eapply vt_bind; [apply vs_err|]. intros _ _. apply IH; assumption.
-      * eapply vt_bind; [apply vs_err|]. intros _ _. apply IH; assumption.
+      * eapply vt_bind; [apply vs_err|]. intros _ _.
+        eapply vt_bind; [apply vs_imps_set; cbn [is_value]; intros v [=]|]. intros _ _. apply IH; assumption.
+      * eapply vt_bind; [apply vs_err|]. intros _ _.
+        eapply vt_bind; [apply vs_imps_set; cbn [is_value]; intros v [=]|]. intros _ _. apply IH; assumption.
       * eapply vt_bind; [apply Hev|]. intros v Hv.
         eapply vt_bind; [apply vs_imps_set; cbn [is_value]; intros v' [= <-]; exact Hv|]. intros _ _.
         apply IH; [destruct merge; [apply csorted_app; assumption|exact Hb]|apply my_ok_ainsert; assumption].
